@@ -99,6 +99,10 @@ pub fn tamperings(r: &mut Rng, h: &Honest, other: Option<&Honest>, positions: us
     }
     let parts: Vec<&str> = jwt.split('.').collect();
     if parts.len() == 3 {
+        // further dot-separated segments after the signature
+        for tail in [".", ".AAAA", "..", ".e30"] {
+            out.push(mk(&format!("extra-segment-after-signature: {:?}", tail), h, with_jwt(h, format!("{}{}", jwt, tail)), honest_resolver.clone(), kb));
+        }
         // the token names its own verification key in the protected header (RFC 7515 jwk) and is signed with it, payload forged;
         // the resolver still returns the issuer's key
         {
@@ -117,7 +121,7 @@ pub fn tamperings(r: &mut Rng, h: &Honest, other: Option<&Honest>, positions: us
         }
         // characters outside the base64url alphabet (padding, standard-alphabet characters, blanks) at the ends of each part
         for (pi, pname) in ["header", "payload", "signature"].iter().enumerate() {
-            for extra in ["=", "==", "+", "/", " ", "%3D"] {
+            for extra in ["=", "==", "+", "/", " ", "%3D", ".", "\u{feff}", "\u{200b}", "\u{a0}", "\n", "\t"] {
                 for at_end in [true, false] {
                     if !all_positions && !at_end && r.chance(2, 3) {
                         continue;
